@@ -887,7 +887,7 @@ func genC28Huge(t *rapid.T) c28Case {
 }
 
 func genC28Request(t *rapid.T) c28Case {
-	if rapid.IntRange(0, 14).Draw(t, "huge-family") == 14 {
+	if rapid.IntRange(0, 39).Draw(t, "huge-family") == 39 {
 		return genC28Huge(t)
 	}
 	if rapid.IntRange(0, 3).Draw(t, "lookup-failure-history") == 3 {
